@@ -3,15 +3,20 @@
 
   Models: `Ring/Seq.lean` (sequential mirror of thread-link.cpp), `Ring/Conc.lean` (writer
   and reader as pc-machines, one step per shared access), `Ring/Spec.lean` (bounded FIFO
-  with lookahead cursor).  Framing is a parameter: `Framing frame IsMsg` says that `frame`
-  (the model of `rtosc_message_ring_length` on the ring view) recognises every accepted
-  message `m` with its own length whatever follows it — for the real function and encoded
-  OSC messages this is C01's `ringLength_encode`.  All theorems quantify over *every*
-  operation history, every interleaving and every memcpy chunk size; none has a bound.
+  with lookahead cursor).  The theorems are first stated for an abstract framing function:
+  `Framing frame IsMsg` says that `frame` recognises every message `m` with its own length
+  whatever follows it.  They are then *instantiated* (section "the real framing function")
+  with `frameOsc` = C01's model of `rtosc_message_ring_length` (`Osc.ringLength`, the function
+  the driver runs against the compiled code) and `IsOscMsg` = the encodings of well-formed OSC
+  messages whose address does not start with '#': `oscFraming` (Proofs/RingOsc.lean) derives
+  `Framing frameOsc IsOscMsg` from C01's `ringLength_encode`.  All theorems quantify over
+  *every* operation history, every interleaving and every memcpy chunk size; none has a bound.
 -/
 import RtoscModel.Ring.Frame
 import RtoscModel.Proofs.RingSeq
 import RtoscModel.Proofs.RingConc
+import RtoscModel.Proofs.RingOsc
+import RtoscModel.Proofs.RingAccept
 namespace Rtosc.Ring
 open Rtosc
 
@@ -204,6 +209,110 @@ theorem hasNext_exact (fr : Framing frame IsMsg) (maxMsg nmsgs chunk : Nat) (hN 
     show ¬(retOf s.rlog).length < (pubOf s.wlog).length ↔ (retOf s.rlog).length = (pubOf s.wlog).length
     omega
 
+/-! ## concurrent acceptance (which writes are accepted) -/
+
+/-- **C06 / acceptance under concurrency.**  In every reachable state in which the writer is
+    about to start an operation, its first shared access — the load of the read index, the
+    moment "it looks" — decides the fate of the message `m`: it is accepted (and `m` itself
+    becomes the bytes in flight, to be published by the store of the write index, see
+    `conc_publish`) **iff** `m` is not longer than `MaxMsg` and fits, together with the bytes
+    of the published-but-not-yet-returned messages, into the `N - 1` usable bytes of the ring
+    *at that moment*; otherwise nothing is in flight, and ring, write index and published
+    messages are unchanged (dropped whole, disturbing nothing). -/
+theorem conc_accept_exact (fr : Framing frame IsMsg) (maxMsg nmsgs chunk : Nat) (hN : 0 < maxMsg * nmsgs)
+    (wops : List WOp) (rops : List ROp) (hops : WOpsOk IsMsg wops) (s : Conc)
+    (h : Conc.Reach frame (Conc.init frame maxMsg nmsgs chunk wops rops) s)
+    (op : WOp) (rest : List WOp) (hpc : s.wpc = .idle) (hop : s.wops = op :: rest) :
+    ∃ s', s.step frame .writer = some (s', .loadR s.r) ∧
+      (if op.msg.length ≤ s.maxMsg ∧ s.queuedBytes + op.msg.length ≤ s.N - 1
+       then s'.wpc = .copying op.msg op.msg 0 ∧ s'.wlog = s.wlog
+       else s'.wpc.inflight = [] ∧ s'.published = s.published) ∧
+      s'.buf = s.buf ∧ s'.w = s.w :=
+  inv_accept fr (conc_inv fr maxMsg nmsgs chunk hN wops rops hops s h) hpc hop
+
+/-- **C06 / publication.**  Once the bytes in flight have been copied, the writer's next step
+    is the store of the write index and appends exactly those bytes to the published
+    messages (nothing for an empty transfer). -/
+theorem conc_publish (frame : Bytes → Nat) (s : Conc) (m d : Bytes) (k : Nat)
+    (hpc : s.wpc = .copying m d k) (hk : d.length ≤ k) :
+    ∃ s', s.step frame .writer = some (s', .storeW ((s.w + d.length) % s.N)) ∧
+      s'.published = s.published ++ (if d = [] then [] else [d]) ∧ s'.wpc = .idle :=
+  step_publish frame s m d k hpc hk
+
+/-! ## the real framing function: `rtosc_message_ring_length` (C01's model) -/
+
+/-- **A1.** `Framing` holds of the model of the real framing function. -/
+theorem framing_osc : Framing frameOsc IsOscMsg := oscFraming
+
+/-- **C06 / FIFO, sequentially, with the real length functions.**  For every history whose
+    written payloads are encodings of well-formed OSC messages (address not starting with '#'),
+    the model of thread-link.cpp that computes lengths like the code — `raw_write` with
+    `rtosc_message_length(msg,-1)` (`rawLen`: every operation returns, no read outside the block),
+    reads with `rtosc_message_ring_length` — returns what the bounded FIFO returns. -/
+theorem seq_refines_queue_osc (maxMsg nmsgs : Nat) (hN : 0 < maxMsg * nmsgs)
+    (ops : List Op) (hops : OpsOk IsOscMsg ops) :
+    ∃ s outs, Seq.runOsc (Seq.init maxMsg nmsgs) ops = some (s, outs) ∧
+      outs = (Q.run (Q.init maxMsg nmsgs) ops).2 ∧ s.fault = false := by
+  have h := seq_refines_queue oscFraming maxMsg nmsgs hN ops hops
+  exact ⟨_, _, runOsc_eq ops _ hops, h.1, h.2⟩
+
+theorem drop_whole_osc (maxMsg nmsgs : Nat) (hN : 0 < maxMsg * nmsgs)
+    (ops : List Op) (hops : OpsOk IsOscMsg ops) (m : Bytes) (hm : IsOscMsg m)
+    (hfit : (Q.run (Q.init maxMsg nmsgs) ops).1.fits m = false) :
+    (Seq.run frameOsc (Seq.init maxMsg nmsgs) ops).1.write m = (Seq.run frameOsc (Seq.init maxMsg nmsgs) ops).1 ∧
+    (Seq.run frameOsc (Seq.init maxMsg nmsgs) ops).1.stepOsc (.rawWrite m) =
+      some ((Seq.run frameOsc (Seq.init maxMsg nmsgs) ops).1, .unit) := by
+  have h := drop_whole oscFraming maxMsg nmsgs hN ops hops m hm hfit
+  refine ⟨h.1, ?_⟩
+  rw [stepOsc_eq _ _ (show (Op.rawWrite m).Ok IsOscMsg from hm)]
+  simp only [Seq.step, h.2]
+
+theorem conc_inv_osc (maxMsg nmsgs chunk : Nat) (hN : 0 < maxMsg * nmsgs)
+    (wops : List WOp) (rops : List ROp) (hops : WOpsOk IsOscMsg wops) (s : Conc)
+    (h : Conc.Reach frameOsc (Conc.init frameOsc maxMsg nmsgs chunk wops rops) s) : Inv frameOsc IsOscMsg s :=
+  conc_inv oscFraming maxMsg nmsgs chunk hN wops rops hops s h
+
+theorem conc_drf_osc (maxMsg nmsgs chunk : Nat) (hN : 0 < maxMsg * nmsgs)
+    (wops : List WOp) (rops : List ROp) (hops : WOpsOk IsOscMsg wops) (s : Conc)
+    (h : Conc.Reach frameOsc (Conc.init frameOsc maxMsg nmsgs chunk wops rops) s) :
+    ∀ o, o ∈ s.writerWrites → o ∉ s.readerReads :=
+  conc_drf oscFraming maxMsg nmsgs chunk hN wops rops hops s h
+
+/-- **C06 / FIFO under every interleaving, for OSC messages and the real framing function.** -/
+theorem conc_fifo_osc (maxMsg nmsgs chunk : Nat) (hN : 0 < maxMsg * nmsgs)
+    (wops : List WOp) (rops : List ROp) (hops : WOpsOk IsOscMsg wops) (s : Conc)
+    (h : Conc.Reach frameOsc (Conc.init frameOsc maxMsg nmsgs chunk wops rops) s) :
+    s.returned = s.published.take s.returned.length ∧
+    s.published.Sublist (wops.map WOp.msg) ∧ s.fault = false :=
+  conc_fifo oscFraming maxMsg nmsgs chunk hN wops rops hops s h
+
+theorem conc_lossless_osc (maxMsg nmsgs chunk : Nat) (hN : 0 < maxMsg * nmsgs)
+    (wops : List WOp) (rops : List ROp) (hops : WOpsOk IsOscMsg wops) (s : Conc)
+    (h : Conc.Reach frameOsc (Conc.init frameOsc maxMsg nmsgs chunk wops rops) s)
+    (hw : s.wpc = .idle) (hr : s.rpc = .idle) (k : Nat) :
+    (Seq.run frameOsc s.toSeq (List.replicate k .read)).2 =
+      (List.range k).map fun i => Out.msg (s.published.drop s.returned.length)[i]? :=
+  conc_lossless oscFraming maxMsg nmsgs chunk hN wops rops hops s h hw hr k
+
+theorem hasNext_exact_osc (maxMsg nmsgs chunk : Nat) (hN : 0 < maxMsg * nmsgs)
+    (wops : List WOp) (rops : List ROp) (hops : WOpsOk IsOscMsg wops) (s : Conc)
+    (h : Conc.Reach frameOsc (Conc.init frameOsc maxMsg nmsgs chunk wops rops) s)
+    (rest : List ROp) (hpc : s.rpc = .idle) (hop : s.rops = .hasNext false :: rest) :
+    ∃ s' b, s.step frameOsc .reader = some (s', .loadW s.w) ∧ s'.rlog = s.rlog ++ [.hasNext false b] ∧
+      (b = false ↔ s.returned.length = s.published.length) :=
+  hasNext_exact oscFraming maxMsg nmsgs chunk hN wops rops hops s h rest hpc hop
+
+theorem conc_accept_exact_osc (maxMsg nmsgs chunk : Nat) (hN : 0 < maxMsg * nmsgs)
+    (wops : List WOp) (rops : List ROp) (hops : WOpsOk IsOscMsg wops) (s : Conc)
+    (h : Conc.Reach frameOsc (Conc.init frameOsc maxMsg nmsgs chunk wops rops) s)
+    (op : WOp) (rest : List WOp) (hpc : s.wpc = .idle) (hop : s.wops = op :: rest) :
+    ∃ s', s.step frameOsc .writer = some (s', .loadR s.r) ∧
+      (if op.msg.length ≤ s.maxMsg ∧ s.queuedBytes + op.msg.length ≤ s.N - 1
+       then s'.wpc = .copying op.msg op.msg 0 ∧ s'.wlog = s.wlog
+       else s'.wpc.inflight = [] ∧ s'.published = s.published) ∧
+      s'.buf = s.buf ∧ s'.w = s.w :=
+  conc_accept_exact oscFraming maxMsg nmsgs chunk hN wops rops hops s h op rest hpc hop
+
 /-! ## known finding C06-K5: bundles are outside `IsMsg` -/
 
 /-- trigger predicate of finding C06-K5: some `raw_write` block starts with `#bundle\0` -/
@@ -228,6 +337,46 @@ theorem bundle_not_self_delimiting_counterexample :
     (Q.run (Q.init 32 2) [.rawWrite (k5Bundle.take 28), .write [47, 98, 0, 0, 44, 0, 0, 0], .hasNext, .read, .read]).2
       = [.unit, .unit, .bool true, .msg (some (k5Bundle.take 28)), .msg (some [47, 98, 0, 0, 44, 0, 0, 0])] := by
   decide +kernel
+
+
+/-! ## known finding C06-K6: `raw_write` never returns on a circular bundle -/
+
+/-- trigger predicate of finding C06-K6: for some `raw_write` block, `rtosc_message_length(msg,-1)`
+    does not terminate -/
+def RawWriteHangs (ops : List Op) : Bool :=
+  ops.any fun
+    | .rawWrite b => rawLen b == .hang
+    | _ => false
+
+/-- "#bundle\0", time tag 0, element size 0xfffffffc, `/a ,`, 4 zero bytes behind the block -/
+def k6Bundle : Bytes :=
+  [35, 98, 117, 110, 100, 108, 101, 0, 0, 0, 0, 0, 0, 0, 0, 0, 255, 255, 255, 252, 47, 97, 0, 0, 44, 0, 0, 0,
+   0, 0, 0, 0]
+
+def k6History : List Op := [.rawWrite k6Bundle, .hasNext, .read]
+
+/-- **C06-K6.** `raw_write` calls `rtosc_message_length(msg, -1)`: the ring it builds has
+    `total = SIZE_MAX`, so the guard `advance > total - pos` of `bundle_ring_length` (fix
+    10ae66e) cannot fire; the element size 0xfffffffc makes `pos += 4 + advance` wrap back to
+    the same `pos` (16): for *every* amount of fuel the loop has not finished — the call never
+    returns.  The sequential model with the real length functions has no successor state
+    (`runOsc = none`); the same block inside a ring view, where `total` is the view's size, is
+    rejected with length 0. -/
+theorem raw_write_bundle_hang_counterexample :
+    RawWriteHangs k6History = true ∧
+    (∀ fuel, Osc.bundleLoopU k6Bundle fuel 16 = .hang) ∧
+    Seq.runOsc (Seq.init 32 2) k6History = none ∧
+    frameOsc k6Bundle = 0 := by
+  refine ⟨by decide +kernel, ?_, by decide +kernel, by decide +kernel⟩
+  intro fuel
+  induction fuel with
+  | zero => rfl
+  | succ f ih =>
+    have h1 : Osc.rd32U k6Bundle 16 = some 4294967292 := by decide +kernel
+    have h2 : Osc.u32 (16 + Osc.u32 (4 + (4294967292 : UInt32).toNat)) = 16 := by decide +kernel
+    simp only [Osc.bundleLoopU, h1]
+    rw [if_pos (by decide), h2]
+    exact ih
 
 /-! ## non-vacuity: the hypotheses are satisfiable and the conclusions say something -/
 
@@ -274,5 +423,22 @@ example :
       (Conc.init toyFrame 4 2 1 [.write [3, 1, 2], .rawWrite [2, 9]] [.read false, .hasNext false, .read false])).1
     s.returned = [[3, 1, 2], [2, 9]] ∧ s.published = [[3, 1, 2], [2, 9]] := by
   decide
+
+/-! ### the same with the real framing function on OSC messages -/
+
+/-- `/a` with no arguments and `/bc` with one int32 are OSC messages in the sense of `IsOscMsg` -/
+example : IsOscMsg [47, 97, 0, 0, 44, 0, 0, 0] := ⟨⟨[47, 97], [], []⟩, by decide, by decide, by decide⟩
+
+example : IsOscMsg [47, 98, 99, 0, 44, 105, 0, 0, 0, 0, 0, 7] :=
+  ⟨⟨[47, 98, 99], [105], [.w32 7]⟩, by decide, by decide, by decide⟩
+
+/-- the sequential model with the real length functions: lookahead does not consume, both come out -/
+example : (Seq.runOsc (Seq.init 12 2)
+    [.write [47, 97, 0, 0, 44, 0, 0, 0], .hasNext, .readLookahead, .rawWrite [47, 98, 99, 0, 44, 105, 0, 0, 0, 0, 0, 7],
+     .read, .read, .read]).map (·.2) =
+    some [.unit, .bool true, .msg (some [47, 97, 0, 0, 44, 0, 0, 0]), .unit, .msg (some [47, 97, 0, 0, 44, 0, 0, 0]),
+          .msg (some [47, 98, 99, 0, 44, 105, 0, 0, 0, 0, 0, 7]), .msg none] := by
+  decide +kernel
+
 
 end Rtosc.Ring
